@@ -28,6 +28,15 @@ def as_opt(v):
     return VOpt(z3.BoolVal(False), v)
 
 
+def as_opt_num(v):
+    """Normalise None / number / optional number to a VOpt with a numeric value."""
+    if isinstance(v, VOpt):
+        return v
+    if v is NONE:
+        return VOpt(z3.BoolVal(True), z3.IntVal(0))
+    return VOpt(z3.BoolVal(False), Z(v))
+
+
 def stop_is(v, reason):
     """info['stop'] == reason  (v: VOpt of VStr)."""
     v = as_opt(v)
@@ -41,6 +50,9 @@ def stop_in(v, reasons):
 
 def same_opt(a, b):
     """Two optional values are equal (both None or both the same value)."""
+    if not (isinstance(a, VStr) or isinstance(b, VStr) or (isinstance(a, VOpt) and isinstance(a.val, VStr))
+            or (isinstance(b, VOpt) and isinstance(b.val, VStr))):
+        a, b = as_opt_num(a), as_opt_num(b)
     a, b = as_opt(a), as_opt(b)
     av = a.val.code if isinstance(a.val, VStr) else a.val
     bv = b.val.code if isinstance(b.val, VStr) else b.val
